@@ -420,7 +420,10 @@ def check_dump(ctx):
 def check_eq(ctx):
     prog = ctx.prog
     f = prog.func(POLICY + '.RuleDefault.__eq__')
-    t = Table(prog, f)
+    from ..dte import inline_helpers
+    t = Table(prog, f, inline=inline_helpers(prog, modules={POLICY},
+                                             classes=False),
+              split_returns=True, max_depth=3)
     other = f.params[1]
     W = ctx.where(f.module, f.node)
     bad = None
@@ -500,5 +503,16 @@ def check(ctx):
     for o in ctx.obligations[no:]:
         o['rule'] = 'C15.TOKENS(' + o['rule'] + ')'
     check_roundtrip(ctx, pr, tf, model, pred, opens, closes)
+    # C15.LIST-ARITY: rules given in the old list form are parsed rules too;
+    # their printed form is a fixed point only if the translator never
+    # builds a one-operand and/or
+    nf, no = len(ctx.findings), len(ctx.obligations)
+    c01.check_list(ctx, classes, arity_rule='C15.LIST-ARITY')
+    ctx.findings[nf:] = [f for f in ctx.findings[nf:]
+                         if f.rule == 'C15.LIST-ARITY']
+    ctx.obligations[no:] = [o for o in ctx.obligations[no:]
+                            if o['rule'] == 'C15.LIST-ARITY']
+    ctx.floor('C15.LIST-ARITY', len(ctx.obligations) - no, 2,
+              'combinators built by the list translator')
     check_dump(ctx)
     check_eq(ctx)
